@@ -36,9 +36,29 @@ class PathsProfile(StoreProfile):
         vocab = self.vocab(run)
         pool = run.scratch.setdefault("value_pool", {})
         sids = run.scratch.setdefault("sids", [])
+        q = run.scratch.setdefault("queue", [])
+        if q:
+            return q.pop(0)
         r = rng.random()
         if r < 0.05:
             return {"op": "restart"}
+        if rng.random() < 0.04:
+            # a symbolic link on disk: the folder of one Sid is a link to the folder of a sibling (a published version linked
+            # to a work version). Paths are names: Sid(path=...) of the link's path is the link's Sid, not its target's.
+            cands = []
+            for t in vocab.usable_types():
+                if not m.is_leaf_type(t) and all(m.has_path(t, c) for c in m.configs) and len(m.by_name[t].keys) >= 4:
+                    cands.append(t)
+            if cands:
+                t = rng.choice(sorted(cands))
+                a = gen_sid(rng, m, vocab, t, pool, reuse=0.5)
+                b = gen_sid(rng, m, vocab, t, pool, reuse=0.9)
+                if a and b and a != b and a.split("/")[:-1] == b.split("/")[:-1]:
+                    c = rng.choice(m.configs)
+                    sids.extend([a, b])
+                    for x in (b, a):
+                        q.append({"op": "roundtrip", "sid": x, "cfg": c, "other": c, "spell": "kw", "aspath": rng.random() < 0.5})
+                    return {"op": "link", "target": a, "link": b, "cfg": c}
         if sids and r < 0.45:
             s = rng.choice(sids)
         else:
@@ -113,6 +133,18 @@ class PathsProfile(StoreProfile):
         op = step["op"]
         if op == "restart":
             run.start_epoch()
+            return
+        if op == "link":
+            import os
+            pa = m.path_of_sid(step["target"], step["cfg"])
+            pb = m.path_of_sid(step["link"], step["cfg"])
+            if pa and pb:
+                ra, rb = run.world.real(pa), run.world.real(pb)
+                os.makedirs(ra, exist_ok=True)
+                os.makedirs(os.path.dirname(rb), exist_ok=True)
+                if not os.path.lexists(rb):
+                    os.symlink(ra, rb)
+                    run.fired["symlinked_folder"] += 1
             return
         s, c = step["sid"], step["cfg"]
         run.stats["path_cases"] += 1
